@@ -55,6 +55,17 @@ func (g *Graph) Reachable() (reach []bool, cyclic bool) {
 	return
 }
 
+// ReachableSelfLoop reports whether a module reachable from main imports itself.
+func (g *Graph) ReachableSelfLoop() bool {
+	reach, _ := g.Reachable()
+	for i := 0; i < g.N; i++ {
+		if reach[i] && g.Edges[i][i] != 0 {
+			return true
+		}
+	}
+	return false
+}
+
 // Value is what V() of node i returns in an acyclic graph.
 func (g *Graph) Value(i int, memo map[int]int64) int64 {
 	if v, ok := memo[i]; ok {
@@ -308,9 +319,9 @@ func CheckC15(opt C15Options) int {
 		unit Unit
 	}
 	var items []item
-	kSmall, nLarge, kLarge, fine, realEvery := 4, 300, 3, 10, 6
+	kSmall, nLarge, kLarge, fine, realEvery := 32, 400, 4, 10, 6
 	if opt.Tier == "thorough" {
-		kSmall, nLarge, kLarge, fine, realEvery = 40, 6000, 8, 25, 8
+		kSmall, nLarge, kLarge, fine, realEvery = 400, 10000, 10, 25, 8
 	}
 	mk := func(g *Graph, pl Plan, tools string) item {
 		return item{g, Unit{Project: g.Project(), Backend: "native", Plan: pl, KeepGen: true, Tools: tools}}
@@ -318,8 +329,16 @@ func CheckC15(opt C15Options) int {
 	for gi, g := range AllGraphs3() {
 		// the canonical schedule with the real tool chain, then seeded ones
 		items = append(items, mk(g, Canonical(), "real"))
+		items = append(items, mk(g, Plan{Strategy: "lifo", MapMode: "reverse"}, "stub"))
 		r := core.Sub(opt.Seed, "c15", "g3", gi)
-		for k := 1; k < kSmall; k++ {
+		// a self import is refused while its own module is parsed, whatever the
+		// schedule; the schedule budget goes to the graphs where the verdict
+		// hinges on edges that arrive from different goroutines
+		k := kSmall
+		if g.ReachableSelfLoop() {
+			k = kSmall / 8
+		}
+		for ; k > 0; k-- {
 			items = append(items, mk(g, RandomPlan(r, fine), "stub"))
 		}
 	}
@@ -360,6 +379,10 @@ func CheckC15(opt C15Options) int {
 		}, nil)
 		for k, o := range res {
 			outs[lo+k] = o
+			if os.Getenv("VERIF_DEBUG") != "" {
+				_, cyc := items[lo+k].g.Reachable()
+				fmt.Printf("DEBUG %s cyclic=%v strat=%s seed=%d dec=%d trace=%s ran=%v issues=%v\n", items[lo+k].g, cyc, units[k].Plan.Strategy, units[k].Plan.Seed, o.Sim.Decisions, o.Sim.TraceHash, o.Ran, o.Issues)
+			}
 			if o.Trouble != "" {
 				rep.NoteTrouble(fmt.Sprintf("graph %s: %s", items[lo+k].g, o.Trouble))
 			}
